@@ -46,6 +46,8 @@ import (
 //vsym:stub (*os.File).Name = FileName
 //vsym:stub (*os.File).WriteTo = FileWriteTo
 //vsym:stub (*os.File).Read = FileRead
+//vsym:stub (*os.File).Stat = FileStat
+//vsym:stub (*os.File).ReadDir = FileReadDir
 //vsym:stub path/filepath.readDir = walkReadDir
 
 const (
@@ -744,6 +746,37 @@ func FileWriteTo(f *os.File, w io.Writer) (int64, error) {
 	}
 	n, err := w.Write(data)
 	return int64(n), err
+}
+
+// FileStat describes the inode the handle is bound to (not whatever the name is bound to now). Modification
+// times are not modelled finer than "all the same" (the coarsest time stamp granularity a file system may have).
+func FileStat(f *os.File) (fs.FileInfo, error) {
+	h, err := fileHandle(f, "stat")
+	if err != nil {
+		return nil, err
+	}
+	if err := FS.log("fstat", h.name, ""); err != nil {
+		return nil, err
+	}
+	return Info{filepath.Base(h.name), h.node}, nil
+}
+
+func FileReadDir(f *os.File, n int) ([]fs.DirEntry, error) {
+	h, err := fileHandle(f, "readdir")
+	if err != nil {
+		return nil, err
+	}
+	if err := FS.log("readdir", h.name, ""); err != nil {
+		return nil, err
+	}
+	if h.node.Kind != KindDir {
+		return nil, perr("readdir", h.name, syscall.ENOTDIR)
+	}
+	var out []fs.DirEntry
+	for _, c := range h.node.Names {
+		out = append(out, Info{c, h.node.Kids[c]})
+	}
+	return out, nil
 }
 
 func FileClose(f *os.File) error {
